@@ -123,7 +123,10 @@ CHECKS = {
     'C10': dict(
         props=['C10'], opts='props=0 q=16',
         quick=[mc(2, [2, 5, 6], DEL, DEL + GC, Modes='ModesTwo', BUSets='BUOn'),
-               mc(1, [3, 4, 7], [], ['add_face_v', 'add_cell_closed'] + DEL, Modes='ModesDefault', BUSets='BUOn')],
+               mc(1, [3, 4, 7], [], ['add_face_v', 'add_cell_closed'] + DEL, Modes='ModesDefault', BUSets='BUOn'),
+               # faces of mixed valence (prism: quads + triangles; pyramid on odd halfedges): queries shorter /
+               # longer than a face's valence must not match it (seeded change C10f was only met by the random stage)
+               mc(1, [9, 12], [], DEL, Modes='ModesDefault', BUSets='BUOn')],
         thorough=[mc(3, [5, 6], DEL, DEL + GC + ['add_face_v', 'add_edge', 'add_cell_closed'], Modes='ModesTwo', BUSets='BUOn'),
                   mc(2, [2, 12], DEL, DEL + GC + ['add_cell_closed'], Modes='ModesTwo', BUSets='BUOn'),
                   mc(1, [3, 4, 7, 9, 10, 11, 14], [], ['add_face_v', 'add_cell_closed'] + DEL, Modes='ModesTwo', BUSets='BUOn')],
